@@ -243,7 +243,10 @@ func runHarness(harness, pkgdir, tier, solverName string, timeoutMs int, trace b
 		if tier == "thorough" {
 			ex.MaxPreempt = 3
 		}
-		if v := hi.Opts["preempt"]; v != "" {
+		if v := hi.Opts["preempt"]; v != "" && tier != "thorough" {
+			fmt.Sscan(v, &ex.MaxPreempt)
+		}
+		if v := hi.Opts["preemptT"]; v != "" && tier == "thorough" {
 			fmt.Sscan(v, &ex.MaxPreempt)
 		}
 	}
